@@ -1,0 +1,14 @@
+//go:build verif
+
+// Contracts for the deductive verifier in /verif (comment-only file; compiled out
+// unless the build tag `verif` is set, and even then contains no executable code).
+package middleware
+
+// ---- the user id that reaches the handlers is a clean path component (property C16) ----
+// The user id becomes a key prefix and a directory name (filepath.Join collapses "." and "..").
+//@ spec cleanComp(s string) bool = len(s) > 0 && s != "." && s != ".." && forall(k, 0, len(s), s[k] != '/' && s[k] != '\\')
+
+//@ func AppHeaderMiddleware$1
+//@   property C16 C18
+//@   ensures ncalls(ServeHTTP) <= 1
+//@   ensures ncalls(ServeHTTP) == 1 ==> cleanComp(final(appHeaders).UserId)
